@@ -254,12 +254,21 @@ def scan_trace(trace, jobs):
                     e = json.loads(line)
                     c = json.loads(last_call) if last_call else None
                     site = site_of(e)
+                    mine = c is not None and c["id"] == e["id"]
+                    key = (c["j"], c["s"], c.get("n", 1)) if mine else None
                     if site not in first:
-                        first[site] = e["id"]
+                        first[site] = (e["id"], key)
                     else:
-                        dup_ids.add(e["id"])
+                        rep_id, rep_key = first[site]
+                        if mine and rep_key and key[:2] == rep_key[:2] and key[2] == 1 and rep_key[2] > 1:
+                            # the recorder has narrowed the same application down to one tuple: that is the reproduction
+                            dup_ids.discard(e["id"])
+                            dup_ids.add(rep_id)
+                            first[site] = (e["id"], key)
+                        else:
+                            dup_ids.add(e["id"])
                         dups[site] += 1
-                        if c is not None and c["id"] == e["id"]:
+                        if mine:
                             also[site][signature(c, jobs[c["j"]])] += 1
     return {"events": n_events, "apis": apis, "outcomes": outcomes, "dup_ids": dup_ids, "dups": dups,
             "also": {k: sorted(v.items(), key=lambda kv: -kv[1])[:60] for k, v in also.items()}}
@@ -448,7 +457,7 @@ def run(tier, seed):
     macro = [["m:c09", "cart ellps=$ellps(GRS80)"]]
     for name, text in bases:
         jobs.append(def_job(text, macro, ["full", "sim"], 8, {"op": name, "keys": ["-"], "cls": ["base"], "wrap": "alone"}))
-        jobs.append(def_job("stack push=1,2,3,4 | %s | stack pop=1,2,3,4" % text, macro, ["full"], 2,
+        jobs.append(def_job("stack push=1,2,3,4 | stack push=1,2,3,4 | %s | stack pop=1,2,3,4 | stack pop=1,2,3,4" % text, macro, ["full"], 2,
                             {"op": name, "keys": ["-"], "cls": ["base"], "wrap": "step"}))
     for text in specials:
         jobs.append(def_job(text, macro, ["full", "sim"], 8, {"op": "special", "keys": ["-"], "cls": [text[:30]], "wrap": "alone"}))
